@@ -48,8 +48,9 @@ def builtin (cm : CaseMap) (off : Nat) (name : String) : Option (F N) :=
   | "is_leap_year" => some (tot Time.isLeapYear) | "year" => some (tot Time.year) | "month" => some (tot Time.month)
   | "day" => some (tot Time.day) | "hour" => some (tot Time.hour) | "minute" => some (tot Time.minute)
   | "second" => some (tot Time.second) | "millisecond" => some (tot Time.millisecond)
-  -- formatting only, and only under TZ=UTC (the check forces it); the parsing functions date_from_rfc* stay unmodelled
+  -- the RFC functions are modelled for a process whose local zone is UTC (the check forces TZ=UTC)
   | "date_to_rfc3339" => some (tot TimeRfc.dateToRfc3339) | "date_to_rfc2822" => some (tot TimeRfc.dateToRfc2822)
+  | "date_from_rfc3339" => some TimeRfc.dateFromRfc3339 | "date_from_rfc2822" => some TimeRfc.dateFromRfc2822
   | _ => none
 
 end Registry
